@@ -24,7 +24,7 @@ SPEC = dict(
     coq_targets=["props/C18.vo"],
     drivers=[
         dict(name="check", kind="test", pkg="./asserts", run="TestVerifC18",
-             n=dict(quick=220, thorough=6000),
+             n=dict(quick=270, thorough=6000),
              timeout=dict(quick=300, thorough=1800),
              ev=dict(requires=["V.lib.Bytes", "V.models.AssertCheck"], case_type="AssertCheck.case",
                      mismatch="AssertCheck.mismatch", monitor="AssertCheck.monitor_fail")),
@@ -32,10 +32,10 @@ SPEC = dict(
     classify=classify,
     rule=("real asserts.Database (memory backstore, optionally a WithStackedBackstore database on top; trusted root account + root key) and a signing key whose account-key "
           "assertion (signed by the root) is trusted / stored / absent, for the assertion's authority or another account, "
-          "with since/until and optional header constraints; the assertion is a `model` (timestamped) or `test-only` signed "
+          "with since/until and optional header constraints; the assertion is a `model` (timestamped), `test-only` or `test-only-2` signed "
           "with that key. Enumerated first: clock (MockTimeNow) and timestamp at since-1, since, since+1, until-1, until, "
           "until+1 for trusted and stored keys and both types, the same with SetEarliestTime, no-until key far in the "
-          "future, unknown key, other authority, five constraint sets that admit / do not admit; the SAME account-key at two revisions in two layers (trusted+stored, stacked top+stored, trusted+stacked top via Database.WithStackedBackstore) with the first layer holding the newer revision (expired / constrained / moved to another account / not yet valid / prolonged) or the older one, with both clock modes; structural mutations "
+          "future, unknown key, other authority, five constraint sets that admit / do not admit; eight constraints headers naming assertion types unknown to this snapd (`future-assertion-type`), alone and mixed with known types, x assertions of three types (model, test-only, test-only-2) x trusted / stored key; the SAME account-key at two revisions in two layers (trusted+stored, stacked top+stored, trusted+stacked top via Database.WithStackedBackstore) with the first layer holding the newer revision (expired / constrained / moved to another account / not yet valid / prolonged) or the older one, with both clock modes; structural mutations "
           "(signature of another genuine assertion; re-framings of the signature packet: extra unhashed subpacket, smaller MPI bit length with the same byte count, overstated packet length, old-format and five-octet packet headers, MPI with a leading zero byte; duplicated / added / swapped header lines). "
           "Then random: single-bit and byte xor, byte insertion, byte deletion at random offsets of the encoded assertion "
           "(headers, separator, base64 signature), 20% random key situation x clock x timestamp without mutation. Observed: "
